@@ -94,7 +94,7 @@ def _unescape_tla(s: str) -> str:
     return "".join(out)
 
 
-def run_tlc(module: str, cfg: str, *, constants: dict | None = None, workers: int = 16,
+def run_tlc(module: str, cfg: str, *, constants: dict | None = None, module_text: str | None = None, workers: int = 16,
             timeout: int = 600, env: dict | None = None, simulate: str | None = None,
             depth: int | None = None, coverage: bool = False, tags=("CASE",),
             expect_violation: bool = False, extra: list | None = None,
@@ -116,7 +116,14 @@ def run_tlc(module: str, cfg: str, *, constants: dict | None = None, workers: in
     else:
         cfg_path = os.path.join(SPEC, cfg)
         cfg_name = cfg
-    cmd = ["java", "-XX:+UseParallelGC", "-Xss16m", "-cp", f"{TLA_JAR}:{TLA_DEPS}", "tlc2.TLC",
+    spec_file = os.path.join(SPEC, module + ".tla")
+    if module_text is not None:
+        # a generated root module (constants too rich for a .cfg) that EXTENDS modules of spec/
+        os.makedirs(os.path.join(sc, "gen-" + run_id), exist_ok=True)
+        spec_file = os.path.join(sc, "gen-" + run_id, module + ".tla")
+        with open(spec_file, "w") as f:
+            f.write(module_text)
+    cmd = ["java", "-XX:+UseParallelGC", "-Xss16m", f"-DTLA-Library={SPEC}", "-cp", f"{TLA_JAR}:{TLA_DEPS}", "tlc2.TLC",
            "-workers", str(workers), "-metadir", meta, "-noGenerateSpecTE",
            "-config", cfg_path]
     if coverage:
@@ -127,7 +134,7 @@ def run_tlc(module: str, cfg: str, *, constants: dict | None = None, workers: in
         cmd += ["-depth", str(depth)]
     if extra:
         cmd += extra
-    cmd += [os.path.join(SPEC, module + ".tla")]
+    cmd += [spec_file]
     e = dict(os.environ)
     if env:
         e.update({k: str(v) for k, v in env.items()})
